@@ -161,7 +161,7 @@ Theorem C16_valid_credentials_succeed :
     let '(evs, c', r) := do_request clean parse cf c rq script in
     r <> RBad ->
     rewind_ok (rq_body rq) = true ->
-    r <> RErr ENoCred -> r <> RErr EMissing -> r <> RErr ECred ->
+    r <> RErr ENoCred -> r <> RErr EMissing -> r <> RErr ECred -> r <> RErr EShared ->
     (forall s, ~ In (s, AFail) evs) ->
     (forall s, ~ In (s, AErr) evs) ->
     (forall h a hdr, ~ In (SReg h a true, A401 hdr) evs) ->
@@ -375,12 +375,14 @@ Proof. vm_compute. reflexivity. Qed.
    the slot hands it back or publishes before it leaves Do. *)
 Theorem C16_once_paths_release :
   forallb releases paths_taken = true /\ forallb untouched paths_closed = true /\
+  forallb releases paths_panic = true /\ negb (Nat.eqb (length paths_panic) 0) = true /\
   negb (Nat.eqb (length paths_taken) 0) = true /\ negb (Nat.eqb (length paths_closed) 0) = true.
 Proof. exact generated_paths_ok. Qed.
 Print Assumptions C16_once_paths_release.
 
 (* For every interleaving of any number of Do calls (callers whose context is
-   already cancelled, or is cancelled while they wait, included): a taken slot is
+   already cancelled, or is cancelled while they wait, and callers whose function
+   argument PANICS -- the deferred recover path generated from once.go -- included): a taken slot is
    owned by a caller that is inside Do on a path that releases it; at every
    quiescent point the slot is free or a result is published; and the owner's own
    steps alone release it (nobody can be made to wait forever by a caller that
@@ -395,9 +397,9 @@ Theorem C16_once_slot_never_lost :
      exists n st', once_run st (repeat (SAct g) n) = Some st' /\
        (s_slot st' = SFree \/ s_slot st' = SClosed)).
 Proof.
-  exact (conj (slot_owned paths_taken paths_closed generated_taken_release)
-        (conj (quiescent_slot_free paths_taken paths_closed generated_taken_release)
-              (never_wedged paths_taken paths_closed generated_taken_release))).
+  exact (conj (slot_owned paths_taken paths_closed paths_panic generated_taken_release generated_panic_release)
+        (conj (quiescent_slot_free paths_taken paths_closed paths_panic generated_taken_release generated_panic_release)
+              (never_wedged paths_taken paths_closed paths_panic generated_taken_release generated_panic_release))).
 Qed.
 Print Assumptions C16_once_slot_never_lost.
 
@@ -405,7 +407,7 @@ Print Assumptions C16_once_slot_never_lost.
    that keeps the slot (a context check after the receive) the slot is lost *)
 Theorem C16_once_leaky_program_refuted :
   let taken := [ARet] :: paths_taken in
-  exists tr st, srun taken paths_closed sinit tr = Some st /\
+  exists tr st, srun taken paths_closed paths_panic sinit tr = Some st /\
     (forall g rest, pc_get (s_pcs st) g <> PIn rest) /\ s_slot st = STaken 1.
 Proof. exact leaky_program_wedges. Qed.
 Print Assumptions C16_once_leaky_program_refuted.
@@ -535,7 +537,7 @@ Theorem C16_concurrent_valid_credentials_succeed :
     let '(evs, op, r) := do_request_rd clean parse cf rq osch otok1 otok2 script in
     r <> RBad ->
     rewind_ok (rq_body rq) = true ->
-    r <> RErr ENoCred -> r <> RErr EMissing -> r <> RErr ECred ->
+    r <> RErr ENoCred -> r <> RErr EMissing -> r <> RErr ECred -> r <> RErr EShared ->
     (forall s, ~ In (s, AFail) evs) ->
     (forall s, ~ In (s, AErr) evs) ->
     (forall h a hdr, ~ In (SReg h a true, A401 hdr) evs) ->
@@ -554,3 +556,16 @@ Theorem C16_store_intermediate_state :
               end).
 Proof. exact store_intermediate_ok. Qed.
 Print Assumptions C16_store_intermediate_state.
+
+(* the deferred recover of Once.Do matters: a program that does not hand the slot back
+   when the function argument panics loses the slot *)
+Theorem C16_once_panic_without_handback_refuted :
+  exists tr st, srun paths_taken paths_closed [[ARet]] sinit tr = Some st /\
+    (forall g rest, pc_get (s_pcs st) g <> PIn rest) /\ s_slot st = STaken 1.
+Proof. exact panic_without_handback_wedges. Qed.
+Print Assumptions C16_once_panic_without_handback_refuted.
+
+Example C16_once_panic_example :
+  once_slot_final [SEnter 1; STake 1 1; SEnter 2; SPanicF 1 0; SAct 1; SAct 1;
+                   STake 2 1; SAct 2; SAct 2; SAct 2; SAct 2] = Some SClosed.
+Proof. vm_compute. reflexivity. Qed.
